@@ -78,7 +78,6 @@ Step(e) ==
 
 (***** comparison of the model's result (res', sink', src') with the recorded one *****)
 \* nothing has gone wrong or been interfered with so far: every difference contradicts the property
-CleanW == ~werr /\ sink.failFrom = 0
 CleanR == outcome = "none" /\ src.failFrom = 0 /\ ~Effective(manip)
 
 SinkBytes(calls) == Concat([x \in 1..Len(calls) |-> IF calls[x].err THEN <<>> ELSE HexToBytes(calls[x].d)])
@@ -87,17 +86,22 @@ ModelSinkRuns(log) == RCatAll([x \in 1..Len(log) |-> IF log[x].err THEN <<>> ELS
 ModelSinkLens(log) == [x \in 1..Len(log) |-> [n |-> log[x].n, err |-> log[x].err]]
 SinkErrSeen(calls) == \E x \in 1..Len(calls) : calls[x].err
 
+\* while no call has returned an error the bytes accepted by the underlying writer must be the documented ones;
+\* a call's (n, err) is the property's business unless an underlying call fails in it
 CmpWriterSide(e, r2, sinkPre) ==
-  LET cls == IF CleanW THEN "[property] " ELSE "[model] " IN
+  LET faultNow == \E x \in 1..Len(r2.log) : r2.log[x].err
+      clsRes   == IF ~werr /\ ~faultNow /\ ~SinkErrSeen(e.sink) THEN "[property] " ELSE "[model] "
+      clsBytes == IF ~werr THEN "[property] " ELSE "[model] "
+  IN
   IF e.panic THEN <<"[property] " \o e.ev \o " panicked", "no panic">>
   ELSE IF r2.err # ErrOf(e.err) \/ (e.ev = "Write" /\ r2.ret # e.ret)
     THEN IF e.ev = "Close" /\ ~e.err /\ (SinkFaulted(sinkPre) \/ SinkErrSeen(e.sink))
            THEN <<"[property] Close reports success although the underlying writer failed", r2.err>>
-           ELSE <<cls \o e.ev \o " result (n, err) differs from the specification", ToString(<<r2.ret, r2.err>>)>>
+           ELSE <<clsRes \o e.ev \o " result (n, err) differs from the specification", ToString(<<r2.ret, r2.err>>)>>
   ELSE IF Toy /\ SinkBytes(e.sink) # Conc(ModelSinkRuns(r2.log))
-    THEN <<cls \o "bytes handed to the underlying writer are not the documented segments", BytesToHex(Conc(ModelSinkRuns(r2.log)))>>
+    THEN <<clsBytes \o "bytes handed to the underlying writer are not the documented segments", BytesToHex(Conc(ModelSinkRuns(r2.log)))>>
   ELSE IF SinkLens(e.sink) # ModelSinkLens(r2.log)
-    THEN <<(IF Toy THEN "[model] " ELSE cls) \o "calls on the underlying writer (lengths, failures) differ from the specification", ToString(ModelSinkLens(r2.log))>>
+    THEN <<(IF Toy THEN "[model] " ELSE clsBytes) \o "calls on the underlying writer (lengths, failures) differ from the specification", ToString(ModelSinkLens(r2.log))>>
   ELSE <<>>
 
 Wants(log)   == [x \in 1..Len(log) |-> log[x].want]
